@@ -6,6 +6,7 @@ import NixModel.Drive.StoreModel
 import NixModel.Drive.FileState
 import NixModel.Spec.C14
 import NixModel.Spec.C15
+import NixModel.Drive.DimDescSt
 namespace Nix.Drive
 
 /-- the axis a trace is currently talking about (index family) -/
@@ -70,5 +71,6 @@ structure DState where
   dp : DevPropsSt := {}
   search : SearchSt := {}
   validDesc : List String := []                    -- valid family (C19): the last `vl_desc` answer, raw tokens
+  dd : Option DimDescSt.DDSt := none      -- dimension-descriptor family (C13)
 
 end Nix.Drive
